@@ -91,7 +91,7 @@ func probeCall(tag int) xast.Expr {
 	return xast.Call{Prefix: "v", Local: "probe", Args: []xast.Expr{xast.N(float64(tag)), xast.Fn("position"), xast.Fn("last")}}
 }
 
-var c02Funcs = map[string]bool{"last": true, "position": true, "count": true, "not": true, "true": true, "false": true, "number": true, "string-length": true}
+var c02Funcs = map[string]bool{"last": true, "position": true, "count": true, "not": true, "true": true, "false": true, "number": true, "string-length": true, "boolean": true}
 
 func c02Case(r *evid.Run, tier string, idx int, g *rng.R) {
 	o := adoc.GenOpts{MinNodes: 6, MaxNodes: 45, NS: g.Intn(2), Misc: g.P(50), Weird: g.P(15)}
